@@ -31,17 +31,17 @@ Section Struct.
     {| es_frames := es_frames s; es_left := 0; es_type := es_type s; es_ver := es_ver s |}.
 
   (* the while loop of putPacket *)
-  Fixpoint cloop (fuel : nat) (p : packet) (seg : bool) (pos k : Z) (s : est) : est :=
+  Fixpoint cloop (fuel : nat) (p : packet) (L : Z) (seg : bool) (pos k : Z) (s : est) : est :=
     match fuel with
     | O => s
     | S f =>
-      if pos <? p_len p then
+      if pos <? L then
         let s1 := if es_left s <? 16 then newf s else s in
-        let n := Z.min (es_left s1 - 16) (p_len p - pos) in
-        let flag := if seg then (if k =? 0 then 4 else if pos + n =? p_len p then 12 else 8) else 0 in
+        let n := Z.min (es_left s1 - 16) (L - pos) in
+        let flag := if seg then (if k =? 0 then 4 else if pos + n =? L then 12 else 8) else 0 in
         let s2 := add_item {| it_pkt := p; it_pos := pos; it_len := n; it_flag := flag |} s1 (es_left s1 - 16 - n) in
         let s3 := if flag =? 12 then close s2 else s2 in
-        cloop f p seg (pos + n) (k + 1) s3
+        cloop f p L seg (pos + n) (k + 1) s3
       else s
     end.
 
@@ -52,11 +52,12 @@ Section Struct.
               | _ => if es_type s =? p_mt p then s else set_type s p
               end in
     (* checkIfSegmented: segmentation starts in a frame of its own, an empty frame is reused *)
-    let s2 := if es_left s1 <? 16 + p_len p
+    let L := p_len p in
+    let s2 := if es_left s1 <? 16 + L
               then (if es_left s1 =? cap then s1 else newf s1)
               else s1 in
-    let seg := es_left s2 <? 16 + p_len p in
-    cloop (S (Z.to_nat (p_len p))) p seg 0 0 s2.
+    let seg := es_left s2 <? 16 + L in
+    cloop (S (Z.to_nat L)) p L seg 0 0 s2.
 
   Definition enc_struct (b : list packet) : list frame := rev (es_frames (fold_left cput b est0)).
 End Struct.
